@@ -70,6 +70,7 @@ fn iterator_shims_match_std() {
         assert_eq!(iter_find_map(&mut it(), |x| if x > 2 { Some(x * 2) } else { None }), it().find_map(|x| if x > 2 { Some(x * 2) } else { None }));
         assert_eq!(iter_position(&mut it(), |x| x < 0), it().position(|x| x < 0));
         assert_eq!(iter_count(it()), it().count());
+        assert_eq!(iter_rposition(&mut v.iter(), |x| *x < 0), v.iter().rposition(|x| *x < 0));
         assert_eq!(iter_last(it()), it().last());
         assert_eq!(iter_fold(it(), 0, |a, x| a * 3 + x), it().fold(0, |a, x| a * 3 + x));
         for n in 0..8 {
